@@ -849,7 +849,7 @@ class Exec:
                 return int(m.group(4))
             raise Panic("assert failed: " + m.group(3) + " in " + fn.name.split("::")[-1])
         # calls
-        m = re.match(r"^(?:(.*?) = )?(.*) -> (\[return: bb(\d+), .*\]|unwind .*)$", t)
+        m = re.match(r"^(?:(.*?) = )?(.*) -> (\[return: bb(\d+), .*\]|unwind .*|bb\d+)$", t)
         if m:
             lhs, call, ret_bb = m.group(1), m.group(2), m.group(4)
             # split callee(args)
